@@ -9,6 +9,7 @@ scenario = {
   "rc": reconnect ticks (0 = off), "ssl": bool, "horizon": ticks,
   "runs": [ [dial, ...], ... ]     dial = ["R"] | ["J", status] | ["E", [[dt, burst, kind, hexpayload], ...]]
   "sched": string of 0/1           order at simultaneous wakes (1 = the other thread first)
+  an event may be [dt, burst, kind, hex, cut, lead]: (real runs only) its first `cut` bytes arrive `lead` ticks early
   "closer": optional [t, ...]      (real runs only) a second thread calling app.close() at tick t
   "writes_fail": optional [i, t]   (real runs only) every write on connection i fails (EHOSTUNREACH) from tick t on; reads stay silent
 }
@@ -39,7 +40,9 @@ class UserExc(Exception):
 # ------------------------------------------------------------------ encoding for the driver
 
 def enc_events(evs):
-    return "+".join(f"{dt}.{int(bool(b))}.{k}{h}" for dt, b, k, h in evs)
+    # (an event may carry two more fields [cut, lead]: implementation-side segmentation, see script_of; the model's events
+    #  are whole frames whatever the segmentation)
+    return "+".join(f"{e[0]}.{int(bool(e[1]))}.{e[2]}{e[3]}" for e in evs)
 
 
 def enc_dial(d):
@@ -85,7 +88,8 @@ def script_of(evs):
     out = []
     t = 0
     pending_first = None       # a partial has sent the first fragment of the next message
-    for i, (dt, burst, k, h) in enumerate(evs):
+    for i, ev in enumerate(evs):
+        dt, burst, k, h = ev[:4]
         t += dt
         p = bytes.fromhex(h) if h else b""
         item = None
@@ -126,6 +130,11 @@ def script_of(evs):
             raise ValueError(k)
         if burst and out and isinstance(out[-1][1], bytes) and isinstance(item, bytes) and out[-1][0] == t:
             out[-1] = (t, out[-1][1] + item)
+        elif len(ev) >= 6 and isinstance(item, bytes) and 0 < ev[4] < len(item) and 0 < ev[5] < max(dt, 1):
+            # segmentation: the first `cut` bytes of this frame arrive `lead` ticks early, in a segment of their own; the rest
+            # arrives at the nominal time (and a following burst event shares THAT segment)
+            out.append((t - ev[5], item[:ev[4]]))
+            out.append((t, item[ev[4]:]))
         else:
             out.append((t, item))
     return out
